@@ -188,7 +188,7 @@ def s1(prog):
     tt = tree_types(prog)
     import r_build
     a = r_build.scope_opened(prog)        # abstract evaluation of build_exec/build_pred per tree kind (helpers transparent)
-    b = parser_side(prog, tt)
+    b = parser_side_eval(prog, tt)       # grammar actions interpreted from source (helpers transparent)
     inst, findings = [], []
     for k in KINDS:
         a_ok = a.get(k, (False, []))[0]
@@ -397,3 +397,118 @@ def s5(prog):
                          "msg": "upref::from returns a copy of the enclosing block's upref, including its used flag and its up-value id: ids are numbered per block, so a nested block's fresh ids collide with inherited ones and a read yields another binding's value",
                          "detail": None})
     return inst, findings
+
+
+# ---------------------------------------------------------------------------
+# parser side of S1 by interpreting the grammar actions
+
+def parser_side_eval(prog, tt):
+    """kind -> [(site, producer, every child is SCOPE?, description)]: every bison action of parser.yy that builds trees is interpreted
+    from source on abstract semantic values (an opaque statement for <t>, an empty and a one-name list for <ids>, 0 and 1 for <u>); in the
+    tree it returns, each node of a sub-expression kind is one construction site, scoped iff all its children are SCOPE nodes.
+    The %( %) and %s-style splices of format strings are covered through the scanner actions (lib/scanner.py)."""
+    import grammar, scanner
+    from absint import Break, Thrown
+    from cxxobj import CxxEvaluator, Obj, Struct, Vec, Buf, Ptr, StdStr, OutOfBounds
+    import itertools
+    names = {v: k for k, v in tt.items()}
+    sites = {k: [] for k in KINDS}
+    ev = CxxEvaluator({"method:release": lambda ev, o, a: o}, {}, prog=prog)
+    text = open(grammar.os.path.join(grammar.REPO, "libzwerg/parser.yy")).read()
+    import re
+    tags = {}
+    for tag, syms in re.findall(r"(?m)^%(?:type|token)\s*<(\w+)>\s*(.+)$", text):
+        for s_ in syms.split():
+            tags[s_] = tag
+
+    def mk(kind, children=()):
+        t = Obj("tree")
+        t.m_tt = ("enum", kind, tt[kind])
+        t.m_children = Vec(list(children), "children")
+        t.m_str = t.m_cst = t.m_builtin = None
+        t.m_scope = None
+        return t
+
+    def kd(t):
+        return t.m_tt[1] if isinstance(t.m_tt, tuple) else names.get(t.m_tt, t.m_tt)
+
+    def shape(t, d=0):
+        if not isinstance(t, Obj):
+            return repr(t)
+        ch = [shape(c, d + 1) for c in t.m_children.items]
+        return kd(t) + ("(" + ", ".join(ch) + ")" if ch else "")
+
+    def variants(sym):
+        tag = tags.get(sym)
+        if tag == "t":
+            if sym == "TOK_LIT_STR":
+                f = mk("FORMAT", [mk("STR")])
+                f.m_children.items[0].m_str = StdStr(b"name")
+                return [f]
+            if sym == "StatementList":
+                return [mk("F_DEBUG"), None]
+            return [mk("F_DEBUG")]
+        if tag == "ids":
+            return [Vec([], "ids"), Vec([StdStr(b"A")], "ids")]
+        if tag == "u":
+            return [0, 1]
+        if tag == "s":
+            txt = {"TOK_LIT_INT": b"7", "TOK_WORD": b"w", "TOK_NUMWORD": b"?1", "TOK_OP": b"=="}.get(sym, b"x")
+            return [Struct("strlit", {"buf": Ptr(list(txt) + [0], 0), "len": len(txt)})]
+        return [None]
+    n_actions = 0
+    for lhs, rhs, first, last in grammar.productions(text):
+        if tags.get(lhs) != "t" or lhs in ("Word",):
+            continue
+        if any(s_ in ("TOK_LIT_INT", "TOK_NUMWORD") for s_ in rhs) or rhs == ["TOK_LIT_STR"] or rhs == ["Word"]:
+            continue          # literals and words build leaves
+        stmts, ids, n = grammar.action(prog, lhs, rhs)
+        if "yyval" not in ids:
+            continue
+        n_actions += 1
+        for combo in itertools.product(*[variants(s_) for s_ in rhs]):
+            buf = Buf(16)
+            base = 10
+            for i in range(16):
+                buf.cells[i] = Struct("YYSTYPE", {})
+            for pos, (sym, val) in enumerate(zip(rhs, combo), 1):
+                tag = tags.get(sym)
+                if tag:
+                    v = val.copy_value() if hasattr(val, "copy_value") else val
+                    setattr(buf.cells[base + pos - n], tag, v)
+            yyval = Struct("YYSTYPE", {})
+            env = {ids["yyval"]: yyval}
+            if "yyvsp" in ids:
+                env[ids["yyvsp"]] = Ptr(buf, base)
+            try:
+                for s_ in stmts:
+                    ev.block(s_, env, None)
+            except Break:
+                pass
+            except Thrown:
+                continue           # the action rejects this combination (e.g. a string `let` that is not a plain string)
+            except OutOfBounds as x:
+                raise Broken("action of %s: %s cannot be evaluated: %s" % (lhs, " ".join(rhs), x))
+            r = getattr(yyval, "t", None)
+            if not isinstance(r, Obj):
+                continue
+
+            def visit(t):
+                k = kd(t)
+                if k in sites:
+                    kids = t.m_children.items
+                    # FORMAT and ALT/OR/BLOCK/PRED_SUBX_ANY get their scope from the builder; record the children all the same
+                    ok = bool(kids) and all(isinstance(c, Obj) and kd(c) == "SCOPE" for c in kids) if k not in ("FORMAT",) else True
+                    site = "parser.yy:%d" % first
+                    desc = shape(t)[:70]
+                    if not any(s2[0] == site and s2[3] == desc for s2 in sites[k]):
+                        sites[k].append((site, "%s: %s" % (lhs, " ".join(rhs)), ok, desc))
+                for c in t.m_children.items:
+                    if isinstance(c, Obj):
+                        visit(c)
+            visit(r)
+    if n_actions < 15:
+        raise Broken("only %d tree-building grammar actions could be interpreted (floor 15)" % n_actions)
+    # splices of format strings: the scanner pushes what parse_subquery returns; parse_subquery is Program, hence whatever Program's
+    # action builds; the builder opens the scope for FORMAT children itself
+    return sites
